@@ -28,12 +28,15 @@ func targets() []string {
 	var t []string
 	for _, p := range protectedDirs {
 		t = append(t, p, p+"/newdb", p+"/sub/newdb", p+"/existing", p+"/existing/newdb", p+"/hostname", p+"/sigdb")
+		// component names that merely look like dot segments (they are ordinary names)
+		t = append(t, p+"/..newdb", p+"/...", p+"/..sub/newdb", p+"/.hidden/newdb", p+"/existing/..newdb")
 	}
 	for _, d := range decoyDirs {
 		t = append(t, d, d+"/newdb", d+"/existing", d+"/sub/newdb")
 	}
 	t = append(t, "/work/newdb", "/work/existing", "/work/existing/newdb", "/work/realdb", "/work/file",
-		"/work/etc/newdb", "/work/etc", "/tmp/newdb", "/work/sub/deep/newdb", "/work/nope/newdb", "/newdb", "/etc2/newdb", "/usr.local/newdb")
+		"/work/etc/newdb", "/work/etc", "/tmp/newdb", "/work/sub/deep/newdb", "/work/nope/newdb", "/newdb", "/etc2/newdb", "/usr.local/newdb",
+		"/work/..newdb", "/..newdb", "/work/.../newdb", "/..etc/newdb", "/work/..etc/newdb")
 	return t
 }
 
